@@ -27,6 +27,18 @@ def _alarm(signum, frame):
 
 
 def canon_proc_hash(unit, which):
+    """canonical hash of the reference (A) or derived (B) procedure TOGETHER WITH its callees: a call statement
+    only holds the callee's index, so two results that call different callees must not collapse"""
+    n_a = unit.get("nA", unit[which])
+    procs = unit["procs"][:n_a] if which == "A" else unit["procs"][n_a:]
+    if not procs:
+        procs = [unit["procs"][unit[which] - 1]]
+    return hashlib.sha1(json.dumps(procs, sort_keys=True).encode()).hexdigest()
+
+
+def top_proc_hash(unit, which):
+    """hash of the top-level procedure alone (equal for A and B exactly when the rewrite changed nothing: callees
+    shared between A and B have the same index on both sides)"""
     return hashlib.sha1(json.dumps(unit["procs"][unit[which] - 1], sort_keys=True).encode()).hexdigest()
 
 
@@ -104,7 +116,7 @@ def _job(job, emit):
         rec["text_a"] = str(base)
         rec["text_b"] = str(q)
         hb = canon_proc_hash(unit, "B")
-        if hb == canon_proc_hash(unit, "A"):
+        if top_proc_hash(unit, "B") == top_proc_hash(unit, "A"):
             rec["status"] = "noop"
             return rec, q
         rec["dedupe"] = f"{baseprog}:{canon_proc_hash(unit, 'A')}:{hb}:{','.join(unit['modset_names'])}"
